@@ -1,3 +1,4 @@
+import PGT.Proofs.OrderIndepEmbed
 import PGT.Model.Schema
 /-
 C15 – Declaration order never changes behaviour; sort makes output order-free (IR-level part).
@@ -80,5 +81,95 @@ theorem C15_sort_is_perm (l : List Field) : (sortFieldsByName l).Perm l := by
         · exact List.Perm.refl _
         · exact (List.Perm.cons g ihs).trans (List.Perm.swap a g gs)
     exact (hins _).trans (List.Perm.cons a ih)
+
+-- ------------------------------------------------------------------------------------------------------
+-- "declaration order never changes behaviour" for the converters (proofs: `Proofs/OrderIndep.lean`, `OrderIndepEmbed.lean`): for a
+-- permutation of the field list (attribute names distinct) CopyTo succeeds for both or neither, the attribute maps agree as lookup
+-- functions, diagnostics and hook log are permutations; CopyFrom likewise (fields of the struct agree) when the Go fields assigned
+-- by different blocks are distinct or – branches of one oneof group – at most one branch attribute is known (`Indep` / `IndepFull`;
+-- necessary: `C15_oneof_order_matters`). Which failure is reported can depend on the order (`C15_failure_differs`).
+section
+open PGT.OrderIndep
+
+/-- **C15, CopyTo field blocks (part 1)**: if `fs'` is a permutation of `fs` and the attribute names of `fs` are pairwise
+distinct then, for every struct, every `AttrTypes` and every start state (all inputs, no typing hypotheses),
+the blocks in the order `fs'` succeed iff they succeed in the order `fs`, and successful runs leave the same value under
+every attribute name, the same diagnostics and the same hook calls up to order.
+(When the runs fail the *reported* failure may differ – it is the one of the failing block that comes first in the
+respective order, see `copyToFields_failure_differs`.) -/
+theorem C15_copyTo_fields_perm {fs' fs : List Field} (hp : fs'.Perm fs) (hnd : (fs.map (·.info.nameSnake)).Nodup)
+    (obj : GoVal) (atys : Option (List (String × TfTy))) (st : ToSt) :
+    ((∃ s', copyToFields fs' obj atys st = .ok s') ↔ (∃ s, copyToFields fs obj atys st = .ok s)) ∧
+    ∀ s' s, copyToFields fs' obj atys st = .ok s' → copyToFields fs obj atys st = .ok s →
+      (∀ key, s'.attrs.lookup key = s.attrs.lookup key) ∧ s'.diags.Perm s.diags ∧ s'.hooks.Perm s.hooks := by
+  intros; apply PGT.OrderIndep.copyToFields_perm <;> assumption
+
+/-- **C15, `Copy<T>ToTerraform` (part 3)**: two messages whose field lists are permutations of each other (pairwise
+distinct attribute names): for every struct and every target, one converter succeeds iff the other does, and then
+both return an object with the same `AttrTypes` holding the same value under every attribute name, the same
+diagnostics and the same hook calls up to order. (`m'.info = m.info` is not needed: CopyTo does not read it.) -/
+theorem C15_copyTo_perm (m' m : Msg) (hp : m'.fields.Perm m.fields) (hnd : (m.fields.map (·.info.nameSnake)).Nodup)
+    (obj : GoVal) (tf : TfVal) :
+    ((∃ r', copyTo m' obj tf = .ok r') ↔ (∃ r, copyTo m obj tf = .ok r)) ∧
+    ∀ r' r, copyTo m' obj tf = .ok r' → copyTo m obj tf = .ok r →
+      (∃ as' as atys, r'.tf = .obj false false (some as') atys ∧ r.tf = .obj false false (some as) atys ∧
+        ∀ key, as'.lookup key = as.lookup key) ∧
+      r'.diags.Perm r.diags ∧ r'.hooks.Perm r.hooks := by
+  intros; apply PGT.OrderIndep.copyTo_perm <;> assumption
+
+/-- **C15, CopyFrom field blocks (part 2)**: `fs'` a permutation of `fs`; no field of `fs` is a child of a nullable
+embedded message; the blocks of `fs` pairwise do not interfere (`Indep`: they assign different Go fields – `wk`: the
+holder for oneof branches, the field itself otherwise – or one of the two is a oneof branch whose attribute is not
+known).  Then for every Terraform attribute map and every start state (any target, struct or not; no typing
+hypotheses) the blocks in the order `fs'` succeed iff they succeed in the order `fs`, and after successful runs the
+targets hold the same value in every Go field, with the same diagnostics and hook calls up to order. -/
+theorem C15_copyFrom_fields_perm (ov : List (String × String)) (attrs : Option (List (String × TfVal)))
+    {fs' fs : List Field} (hp : fs'.Perm fs) (hne : NoEmbed fs) (hind : fs.Pairwise (Indep attrs)) (st : FromSt) :
+    ((∃ s', copyFromFields ov fs' attrs st = .ok s') ↔ (∃ s, copyFromFields ov fs attrs st = .ok s)) ∧
+    ∀ s' s, copyFromFields ov fs' attrs st = .ok s' → copyFromFields ov fs attrs st = .ok s →
+      (∀ name, s'.obj.field? name = s.obj.field? name) ∧ (IsStruct s'.obj ↔ IsStruct s.obj) ∧
+      s'.diags.Perm s.diags ∧ s'.hooks.Perm s.hooks := by
+  intros; apply PGT.OrderIndep.copyFromFields_perm <;> assumption
+
+/-- **C15, `Copy<T>FromTerraform` (part 3)**: two messages with the same `MsgInfo` whose field lists are permutations
+of each other (hypotheses of `copyFromFields_perm`, for the attribute map of the object passed in): for every
+Terraform value and every target, one converter succeeds iff the other does, and then the two structs hold the same
+value in every Go field; diagnostics and hook calls agree up to order. -/
+theorem C15_copyFrom_perm (ov : List (String × String)) (m' m : Msg) (hp : m'.fields.Perm m.fields)
+    (hinfo : m'.info = m.info) (hne : NoEmbed m.fields) (tf : TfVal) (obj : GoVal)
+    (hind : ∀ u n attrs atys, tf = .obj u n attrs atys → m.fields.Pairwise (Indep attrs)) :
+    ((∃ r', copyFrom ov m' tf obj = .ok r') ↔ (∃ r, copyFrom ov m tf obj = .ok r)) ∧
+    ∀ r' r, copyFrom ov m' tf obj = .ok r' → copyFrom ov m tf obj = .ok r →
+      (∀ name, r'.obj.field? name = r.obj.field? name) ∧ (IsStruct r'.obj ↔ IsStruct r.obj) ∧
+      r'.diags.Perm r.diags ∧ r'.hooks.Perm r.hooks := by
+  intros; apply PGT.OrderIndep.copyFrom_perm <;> assumption
+
+/-- why the hypothesis on oneof groups is needed: with two known branches of one group the last one wins, so the
+order matters -/
+theorem C15_oneof_order_matters :
+    ∃ (f g : Field) (attrs : Option (List (String × TfVal))) (st s1 s2 : FromSt),
+      copyFromFields [] [f, g] attrs st = .ok s1 ∧ copyFromFields [] [g, f] attrs st = .ok s2 ∧
+      s1.obj.field? "G" ≠ s2.obj.field? "G" := by
+  intros; apply PGT.OrderIndep.copyFromFields_oneof_order_matters <;> assumption
+
+/-- the reported failure does depend on the order: a block that is stuck and a block that panics -/
+theorem C15_failure_differs :
+    ∃ (f g : Field) (obj : GoVal) (atys : Option (List (String × TfTy))) (st : ToSt) (w w' : String),
+      f.info.nameSnake ≠ g.info.nameSnake ∧
+      copyToFields [f, g] obj atys st = .stuck w ∧ copyToFields [g, f] obj atys st = .panic w' := by
+  intros; apply PGT.OrderIndep.copyToFields_failure_differs <;> assumption
+
+/-- **C15, `Copy<T>FromTerraform`, all fields (part 3 in full)**: two messages with the same `MsgInfo` whose field lists
+are permutations of each other, blocks on pairwise disjoint key sets, target a struct. -/
+theorem C15_copyFrom_perm_full (ov : List (String × String)) (m' m : Msg) (hp : m'.fields.Perm m.fields)
+    (hinfo : m'.info = m.info) (tf : TfVal) (obj : GoVal) (hobj : IsStruct obj)
+    (hind : ∀ u n attrs atys, tf = .obj u n attrs atys → m.fields.Pairwise (IndepFull attrs)) :
+    ((∃ r', copyFrom ov m' tf obj = .ok r') ↔ (∃ r, copyFrom ov m tf obj = .ok r)) ∧
+    ∀ r' r, copyFrom ov m' tf obj = .ok r' → copyFrom ov m tf obj = .ok r →
+      (∀ name, r'.obj.field? name = r.obj.field? name) ∧ IsStruct r'.obj ∧ IsStruct r.obj ∧
+      r'.diags.Perm r.diags ∧ r'.hooks.Perm r.hooks := by
+  intros; apply PGT.OrderIndep.copyFrom_perm_full <;> assumption
+
+end
 
 end PGT.Props.C15
